@@ -715,6 +715,38 @@ def decorate(b, rng, kinds):
             if pts and rng.random() < 0.5:
                 # a user constraint attached to the partition itself (public BlockPartition.add_constraint)
                 b.bound(b.sq(rng.choice(pts)), 3e3, target=Bp)
+        elif kind == "zero_coef" and pts and info.get("metrics"):
+            # coefficients that are exactly zero after construction (0 * e keeps its keys)
+            p = rng.choice(pts)
+            z = b.elin([(b.sq(p), 0.0), (info["metrics"][0], 0.0)])
+            e = b.elin([(z, 1.0), (b.sq(p), 1.0)])
+            b.bound(e, 5e3)
+            if rng.random() < 0.5:
+                b.metric(b.elin([(info["metrics"][0], 1.0), (z, 1.0)]))
+        elif kind == "mirror" and len(pts) >= 2:
+            # both orientations of an inner product with different weights, plus a diagonal term and a constant
+            p, q = rng.sample(pts, 2)
+            e = b.elin([(b.inner(p, q), r2(rng.uniform(0.1, 1))), (b.inner(q, p), r2(rng.uniform(-1, -0.1))),
+                        (b.sq(p), 1.0), (b.sq(q), 1.0)], const=r2(rng.uniform(-1, 1)))
+            b.bound(e, 6e3)
+        elif kind == "leaf_metric" and info.get("metrics"):
+            # a bare leaf expression as performance metric (tied from above to the main metric)
+            s_ = b.newexpr()
+            b.cons(s_, "<=", info["metrics"][0], target=P)
+            b.metric(s_)
+        elif kind == "leaf_sides" and info.get("metrics"):
+            # leaf expressions and constants on either side of a comparison
+            s_ = b.newexpr()
+            o = rng.randrange(4)
+            if o == 0:
+                b.cons(s_, "<=", 7e3, target=P)
+            elif o == 1:
+                b.cons(-7e3, "<=", s_, target=P)
+            elif o == 2:
+                b.cons(s_, ">=", -7e3, target=P)
+            else:
+                b.cons(7e3, ">=", s_, target=P)
+            b.cons(s_, "==", info["metrics"][0], target=P)
         elif kind == "part_cons" and pts:
             Bp = b.parts[0] if b.parts else b.partition(rng.choice([2, 3]))
             b.bound(b.sq(rng.choice(pts)), 4e3, target=Bp)
@@ -725,7 +757,8 @@ def decorate(b, rng, kinds):
 
 
 DECORATIONS = ["extra_metric", "redundant_cons", "eq_cons", "func_cons", "lmi_sym", "lmi_asym", "lmi_func", "lmi3",
-               "unused_query", "useless_partition", "orphan_psd", "part_cons"]
+               "unused_query", "useless_partition", "orphan_psd", "part_cons", "zero_coef", "mirror", "leaf_metric",
+               "leaf_sides"]
 
 
 def build_model(rng, prefix="", template=None, n=None, decorations=None, names=None, weights=None,
